@@ -21,8 +21,18 @@ def dump_upper(ctx):
     path = ctx.path("upper.txt")
     rc, out = C.harness(["upper-dump", "--out", path])
     if rc != 0:
-        ctx.undischarged.append("hook H2 upper-casing dump failed: " + out[-200:])
+        ctx.undischarged.append("upper-casing dump failed: " + out[-200:])
         return None
+    stats, _, oracle = C.parse_stats(out)
+    for msg in oracle:
+        t = msg.split()
+        if t[0] == "upper":
+            c, table = t[1], t[5]
+            what = "cfb_uppercase_char(U+%s) gave %s but uppercase.txt over char::to_uppercase gives U+%s: the names <U+%s> and <U+%s> are letter-case variants and no longer compare equal" % (c.upper(), t[3], table.upper(), c.upper(), table.upper())
+            C.add_violation(ctx, "upper:%s" % c, what,
+                            "# C09 violation: %s\n# replay: harness names --replay <this file> --ops o --impl i   (expected output: eq)\ncmp %s %s\n" % (what, c, table))
+        else:
+            C.add_violation(ctx, "upper-alias:%s" % t[1], msg, "# C09 violation: %s\ncmp %s %s\n" % (msg, t[1], t[4].rstrip(",")))
     return path
 
 
@@ -59,7 +69,7 @@ def run(ctx):
     C.regenerate(ctx, upper=upper)
     lean_ok = C.lean_build_and_audit(ctx, MODULE, theorems)
     ctx.assumptions += [
-        "the upper-casing table is the library's own (uppercase.txt overrides + char::to_uppercase of the running toolchain), dumped through hook H2 for all 0x110000 scalars on every run; MS-CFB's normative table (note <3> of 2.6.4) is not available offline",
+        "letter case = uppercase.txt (read as data) over char::to_uppercase().next() of the running toolchain; the Lean table is generated from that, and cfb_uppercase_char (hook H2) is compared with it for all 0x10F800 scalars on every run; MS-CFB's normative table (note <3> of 2.6.4) is not available offline",
         "std::path::Path::components is modelled for Unix paths that are valid UTF-8; non-UTF-8 components are exercised on the implementation only",
     ]
     if not (lean_ok and harness_ok):
